@@ -479,6 +479,27 @@ func (e *vfc14Env) errClass(b objstore.Bucket, err error) string {
 func (e *vfc14Env) do(op vfc14Op) {
 	ctx := context.Background()
 	e.r.Eval(1)
+	// f0 = transient failures injected into the wrapped bucket before this operation started. An operation
+	// during which one is injected may fail (any error) - if it answers, the answer must be right. Every
+	// other operation, in particular every LATER one, must agree with the (never faulted) reference.
+	f0 := e.fb.faults()
+	tol := func(err error) bool {
+		if err != nil && e.fb.faults() != f0 {
+			e.r.Count("faulted_operations_that_returned_an_error", 1)
+			return true
+		}
+		return false
+	}
+	viol := func(fp, what string, w map[string]any) {
+		if f0 > 0 {
+			fp += ":after-transient-fault"
+			what += fmt.Sprintf(" [%d transient failure(s) of the wrapped bucket were injected earlier in this history; objects never changed]", f0)
+		}
+		viol(fp, what, w)
+	}
+	if f0 > 0 {
+		e.r.Count("operations_compared_after_a_fault", 1)
+	}
 	size, exists := e.cfg.Objects[op.Name]
 	switch op.Kind {
 	case "GetRange":
@@ -496,8 +517,11 @@ func (e *vfc14Env) do(op vfc14Op) {
 				}
 			}
 			gr, gerr := e.cb.GetRange(ctx, op.Name, op.Off, op.Len)
+			if tol(gerr) {
+				return
+			}
 			if a, b := e.errClass(e.under, werr), e.errClass(e.cb, gerr); a != b {
-				e.r.Violation(e.c, "GetRange:error-class-differs:"+cls, fmt.Sprintf("GetRange(%q,%d,%d): wrapped bucket %s (%v), caching bucket %s (%v)", op.Name, op.Off, op.Len, a, werr, b, gerr), e.wit(op, nil))
+				viol("GetRange:error-class-differs:"+cls, fmt.Sprintf("GetRange(%q,%d,%d): wrapped bucket %s (%v), caching bucket %s (%v)", op.Name, op.Off, op.Len, a, werr, b, gerr), e.wit(op, nil))
 				if gr != nil {
 					_ = gr.Close()
 				}
@@ -508,12 +532,15 @@ func (e *vfc14Env) do(op vfc14Op) {
 			}
 			got, rerr := vfc14ReadAll(gr, op.ReadBuf, -1)
 			_ = gr.Close()
+			if tol(rerr) {
+				return
+			}
 			if rerr != nil {
-				e.r.Violation(e.c, "GetRange:read-error:"+cls, fmt.Sprintf("GetRange(%q,%d,%d) on an object of %d bytes: reading the returned reader failed after %d bytes: %v (wrapped bucket delivers %d bytes)", op.Name, op.Off, op.Len, size, len(got), rerr, len(want)), e.wit(op, nil))
+				viol("GetRange:read-error:"+cls, fmt.Sprintf("GetRange(%q,%d,%d) on an object of %d bytes: reading the returned reader failed after %d bytes: %v (wrapped bucket delivers %d bytes)", op.Name, op.Off, op.Len, size, len(got), rerr, len(want)), e.wit(op, nil))
 				return
 			}
 			if !bytes.Equal(got, want) {
-				e.r.Violation(e.c, "GetRange:bytes-differ:"+cls, fmt.Sprintf("GetRange(%q,%d,%d) on an object of %d bytes: caching bucket returned %d bytes, wrapped bucket %d bytes, first difference at %d", op.Name, op.Off, op.Len, size, len(got), len(want), vfc14FirstDiff(got, want)), e.wit(op, map[string]any{"got_len": len(got), "want_len": len(want)}))
+				viol("GetRange:bytes-differ:"+cls, fmt.Sprintf("GetRange(%q,%d,%d) on an object of %d bytes: caching bucket returned %d bytes, wrapped bucket %d bytes, first difference at %d", op.Name, op.Off, op.Len, size, len(got), len(want), vfc14FirstDiff(got, want)), e.wit(op, map[string]any{"got_len": len(got), "want_len": len(want)}))
 			}
 		})
 	case "Get", "GetPartial":
@@ -525,8 +552,11 @@ func (e *vfc14Env) do(op vfc14Op) {
 				_ = wr.Close()
 			}
 			gr, gerr := e.cb.Get(ctx, op.Name)
+			if tol(gerr) {
+				return
+			}
 			if a, b := e.errClass(e.under, werr), e.errClass(e.cb, gerr); a != b {
-				e.r.Violation(e.c, "Get:error-class-differs", fmt.Sprintf("Get(%q): wrapped bucket %s (%v), caching bucket %s (%v)", op.Name, a, werr, b, gerr), e.wit(op, nil))
+				viol("Get:error-class-differs", fmt.Sprintf("Get(%q): wrapped bucket %s (%v), caching bucket %s (%v)", op.Name, a, werr, b, gerr), e.wit(op, nil))
 				return
 			}
 			if gerr != nil {
@@ -538,48 +568,57 @@ func (e *vfc14Env) do(op vfc14Op) {
 			}
 			got, rerr := vfc14ReadAll(gr, op.ReadBuf, limit)
 			_ = gr.Close()
+			if tol(rerr) {
+				return
+			}
 			if rerr != nil {
-				e.r.Violation(e.c, "Get:read-error", fmt.Sprintf("Get(%q): reading failed after %d bytes: %v", op.Name, len(got), rerr), e.wit(op, nil))
+				viol("Get:read-error", fmt.Sprintf("Get(%q): reading failed after %d bytes: %v", op.Name, len(got), rerr), e.wit(op, nil))
 				return
 			}
 			if limit >= 0 {
 				// a partial read consumed some prefix, in units of the read buffer
 				if len(got) > len(want) || !bytes.Equal(got, want[:len(got)]) {
-					e.r.Violation(e.c, "Get:bytes-differ", fmt.Sprintf("Get(%q) partial read of %d bytes is not a prefix of the object", op.Name, len(got)), e.wit(op, nil))
+					viol("Get:bytes-differ", fmt.Sprintf("Get(%q) partial read of %d bytes is not a prefix of the object", op.Name, len(got)), e.wit(op, nil))
 				}
 				return
 			}
 			if !bytes.Equal(got, want) {
-				e.r.Violation(e.c, "Get:bytes-differ", fmt.Sprintf("Get(%q): caching bucket returned %d bytes, wrapped bucket %d, first difference at %d", op.Name, len(got), len(want), vfc14FirstDiff(got, want)), e.wit(op, nil))
+				viol("Get:bytes-differ", fmt.Sprintf("Get(%q): caching bucket returned %d bytes, wrapped bucket %d, first difference at %d", op.Name, len(got), len(want), vfc14FirstDiff(got, want)), e.wit(op, nil))
 			}
 		})
 	case "Exists":
 		e.r.Guard(e.c, "Exists", e.wit(op, nil), func() {
 			w, werr := e.under.Exists(ctx, op.Name)
 			g, gerr := e.cb.Exists(ctx, op.Name)
+			if tol(gerr) {
+				return
+			}
 			if (werr == nil) != (gerr == nil) {
-				e.r.Violation(e.c, "Exists:error-class-differs", fmt.Sprintf("Exists(%q): wrapped %v, caching %v", op.Name, werr, gerr), e.wit(op, nil))
+				viol("Exists:error-class-differs", fmt.Sprintf("Exists(%q): wrapped %v, caching %v", op.Name, werr, gerr), e.wit(op, nil))
 				return
 			}
 			if w != g {
-				e.r.Violation(e.c, "Exists:answer-differs", fmt.Sprintf("Exists(%q): wrapped bucket says %v, caching bucket says %v", op.Name, w, g), e.wit(op, nil))
+				viol("Exists:answer-differs", fmt.Sprintf("Exists(%q): wrapped bucket says %v, caching bucket says %v", op.Name, w, g), e.wit(op, nil))
 			}
 		})
 	case "Attributes":
 		e.r.Guard(e.c, "Attributes", e.wit(op, nil), func() {
 			w, werr := e.under.Attributes(ctx, op.Name)
 			g, gerr := e.cb.Attributes(ctx, op.Name)
+			if tol(gerr) {
+				return
+			}
 			if a, b := e.errClass(e.under, werr), e.errClass(e.cb, gerr); a != b {
-				e.r.Violation(e.c, "Attributes:error-class-differs", fmt.Sprintf("Attributes(%q): wrapped bucket %s (%v), caching bucket %s (%v)", op.Name, a, werr, b, gerr), e.wit(op, nil))
+				viol("Attributes:error-class-differs", fmt.Sprintf("Attributes(%q): wrapped bucket %s (%v), caching bucket %s (%v)", op.Name, a, werr, b, gerr), e.wit(op, nil))
 				return
 			}
 			if werr != nil {
 				return
 			}
 			if w.Size != g.Size {
-				e.r.Violation(e.c, "Attributes:size-differs", fmt.Sprintf("Attributes(%q): size %d vs %d", op.Name, w.Size, g.Size), e.wit(op, nil))
+				viol("Attributes:size-differs", fmt.Sprintf("Attributes(%q): size %d vs %d", op.Name, w.Size, g.Size), e.wit(op, nil))
 			} else if !w.LastModified.Equal(g.LastModified) {
-				e.r.Violation(e.c, "Attributes:last-modified-differs", fmt.Sprintf("Attributes(%q): last modified %v vs %v", op.Name, w.LastModified, g.LastModified), e.wit(op, nil))
+				viol("Attributes:last-modified-differs", fmt.Sprintf("Attributes(%q): last modified %v vs %v", op.Name, w.LastModified, g.LastModified), e.wit(op, nil))
 			}
 		})
 	case "Iter", "IterRecursive":
@@ -591,12 +630,15 @@ func (e *vfc14Env) do(op vfc14Op) {
 			var w, g []string
 			werr := e.under.Iter(ctx, op.Name, func(s string) error { w = append(w, s); return nil }, opts...)
 			gerr := e.cb.Iter(ctx, op.Name, func(s string) error { g = append(g, s); return nil }, opts...)
+			if tol(gerr) {
+				return
+			}
 			if (werr == nil) != (gerr == nil) {
-				e.r.Violation(e.c, "Iter:error-class-differs", fmt.Sprintf("%s(%q): wrapped %v, caching %v", op.Kind, op.Name, werr, gerr), e.wit(op, nil))
+				viol("Iter:error-class-differs", fmt.Sprintf("%s(%q): wrapped %v, caching %v", op.Kind, op.Name, werr, gerr), e.wit(op, nil))
 				return
 			}
 			if strings.Join(w, "\x00") != strings.Join(g, "\x00") {
-				e.r.Violation(e.c, "Iter:listing-differs", fmt.Sprintf("%s(%q): wrapped bucket lists %q, caching bucket lists %q", op.Kind, op.Name, w, g), e.wit(op, nil))
+				viol("Iter:listing-differs", fmt.Sprintf("%s(%q): wrapped bucket lists %q, caching bucket lists %q", op.Kind, op.Name, w, g), e.wit(op, nil))
 			}
 		})
 	}
@@ -620,10 +662,12 @@ func TestVF_C14(t *testing.T) {
 	defer r.Finish()
 	r.Rule("case = 1..4 immutable objects (sizes 0..20000, clustered around multiples of the subrange size) in an in-memory bucket + caching configuration (subrange size {1,7,16,1000,16000}, max sub-requests {0..3}, max cacheable Get size, TTLs 1h or 0) " +
 		"(objects at most ~300 subranges long) + lossy cache fake (drops stores, misses present keys, evicts on fetch; never invents data) + history of 1..60 reads (GetRange with offsets/lengths at subrange and object boundaries, zero/-1 length, beyond the end; Get full and partial; Exists; Attributes; Iter flat/recursive; existing and missing names), " +
-		"one quarter of the histories executed by 2..4 goroutines at once; oracle = the same call on the wrapped bucket (bytes, answers, error class ok/not-found/error); " +
-		"distinct = hash of configuration+history; non-trivial = the history had at least one cache hit and the wrapped bucket was still asked for a range (mixed service) or the cache lost something")
+		"one quarter of the histories executed by 2..4 goroutines at once; half of the histories additionally carry a fault plan for the wrapped bucket: the k-th (1..4) call of a class (Get, GetRange, Exists, Attributes, Iter) fails once with a transient error, context.Canceled, context.DeadlineExceeded, a reader that fails after N good bytes or a listing that fails after N entries; " +
+		"oracle = the same call on the never-faulted in-memory bucket (bytes, answers, error class ok/not-found/error); only an operation during which a fault was injected may return an error instead (if it answers, the answer must be right) - every later operation must agree again, fingerprint suffix :after-transient-fault; " +
+		"distinct = hash of configuration+history; non-trivial = the history had at least one cache hit and the wrapped bucket was still asked for a range (mixed service), the cache lost something, or a fault was injected")
 	r.Assume("objects and the set of objects do not change after the first read (premise of the property)")
 	r.Assume("the cache only loses entries; it never returns bytes that were not stored under that key")
+	r.Assume("injected failures are transient and honest: the failed call returns an error (never wrong data, never a not-found error), the next call of the wrapped bucket works again")
 	r.Assume("offsets are >= 0 (negative offsets are forwarded unchanged to the wrapped bucket)")
 	n := r.N(3000, 120000)
 	r.Require(int64(n)*10, n/3)
@@ -639,7 +683,9 @@ func TestVF_C14(t *testing.T) {
 				t.Fatalf("harness: upload: %v", err)
 			}
 		}
-		under := &vfc14Counting{Bucket: inmem}
+		cfg.Faults = vfc14GenFaults(r.RandS("faults", c))
+		faulty := &vfc14Faulty{Bucket: inmem, plan: cfg.Faults, calls: map[string]int{}}
+		under := &vfc14Counting{Bucket: faulty}
 		cache := &vfc14Cache{rng: r.RandS("cache", c), m: map[string][]byte{}, pDrop: cfg.PDrop, pMiss: cfg.PMiss, pEvict: cfg.PEvict}
 		ttl := time.Hour
 		if cfg.TTLZero {
@@ -677,7 +723,7 @@ func TestVF_C14(t *testing.T) {
 			streams[g] = vfc14GenOps(r.RandS(fmt.Sprintf("ops%d", g), c), cfg, 1+rng.Intn(60))
 			total += len(streams[g])
 		}
-		env := &vfc14Env{r: r, c: c, cfg: cfg, under: inmem, cb: cb}
+		env := &vfc14Env{r: r, c: c, cfg: cfg, under: inmem, cb: cb, fb: faulty}
 		env.wit = func(op vfc14Op, extra map[string]any) map[string]any {
 			m := map[string]any{"config": cfg, "failing_op": op, "histories": streams}
 			for k, v := range extra {
@@ -712,13 +758,18 @@ func TestVF_C14(t *testing.T) {
 		under.mu.Lock()
 		gr := under.getRanges
 		under.mu.Unlock()
-		if hits > 0 && (gr > 0 || losses > 0) {
+		nf := faulty.faults()
+		if hits > 0 && (gr > 0 || losses > 0 || nf > 0) {
 			r.Distinct(fmt.Sprintf("%v|%v", cfg, streams))
+		}
+		if nf > 0 {
+			r.Count("histories_with_injected_fault", 1)
+			r.Count("faults_injected", nf)
 		}
 		r.Count("cache_hits", hits)
 		r.Count("cache_losses_injected", losses)
 		r.Count("wrapped_bucket_getrange_calls", gr)
 		r.Count("operations", total)
-		r.Sample(map[string]any{"subrange": cfg.Subrange, "max_sub_requests": cfg.MaxSubReq, "objects": cfg.Objects, "ops": total, "goroutines": cfg.Goroutines, "cache_hits": hits, "cache_losses": losses, "bucket_getranges": gr})
+		r.Sample(map[string]any{"fault_plan": cfg.Faults, "faults_injected": nf, "subrange": cfg.Subrange, "max_sub_requests": cfg.MaxSubReq, "objects": cfg.Objects, "ops": total, "goroutines": cfg.Goroutines, "cache_hits": hits, "cache_losses": losses, "bucket_getranges": gr})
 	}
 }
